@@ -489,6 +489,15 @@ def tv_diff(req):
                 a = "generator failed: %s: %s" % (type(e).__name__, str(e)[:200])
                 real = ""
             b = _canon(d_ref.full_module(exp, expose))
+            if real and a == b:
+                # assumed contract of black.format_str: AST-preserving (checked on every text this run generates)
+                try:
+                    from black import FileMode, format_str
+                    if _canon(quiet(format_str, real, mode=FileMode())) != a and len(fails) < req.get("limit", 2):
+                        fails.append({"text": text, "layout": "exposed" if expose else "nested", "what": "black.format_str changed the AST of the generated module"})
+                except Exception as e:   # noqa
+                    if len(fails) < req.get("limit", 2):
+                        fails.append({"text": text, "what": "black.format_str failed on the generated module: %s" % type(e).__name__})
             if a != b and len(fails) < req.get("limit", 2):
                 i = next((k for k, (x, y) in enumerate(zip(a, b)) if x != y), min(len(a), len(b)))
                 fails.append({"text": text, "layout": "exposed" if expose else "nested", "first_difference": {"real": a[max(0, i - 120):i + 160], "expected": b[max(0, i - 120):i + 160]}})
